@@ -43,6 +43,11 @@ type Model struct {
 	List map[string]*listVal
 	Set  map[string]*setVal
 	ZSet map[string]*zsetVal
+	// PF holds HyperLogLog keys as exact sets. Only valid for small element pools that were
+	// checked to be collision-free in the implementation's sparse representation (C06), and
+	// only for keys that no other command touches (the HLL shares the KV keyspace; DEL, GET,
+	// EXPIRE ... on such a key are not modelled).
+	PF map[string]map[string]bool
 	// Deviations switches documented/observed behaviour of the implementation that differs
 	// from Redis and is accepted (see DESIGN.md §4 C08 "deviations"); each is a named flag so
 	// that the evidence can list what was modelled rather than checked.
@@ -56,7 +61,7 @@ type Deviations struct {
 }
 
 func New() *Model {
-	return &Model{KV: map[string]*kvVal{}, Hash: map[string]*hashVal{}, List: map[string]*listVal{}, Set: map[string]*setVal{}, ZSet: map[string]*zsetVal{},
+	return &Model{KV: map[string]*kvVal{}, Hash: map[string]*hashVal{}, List: map[string]*listVal{}, Set: map[string]*setVal{}, ZSet: map[string]*zsetVal{}, PF: map[string]map[string]bool{},
 		Dev: Deviations{IncrWraps: true, TTLMissingIsMinus1: true}}
 }
 
@@ -214,7 +219,7 @@ func IsWrite(name string) bool {
 		"hset", "hsetnx", "hmset", "hdel", "hincrby", "hclear", "hexpire", "hpersist",
 		"lpush", "rpush", "lpop", "rpop", "lset", "ltrim", "lclear", "lexpire", "lpersist",
 		"sadd", "srem", "spop", "sclear", "sexpire", "spersist",
-		"zadd", "zincrby", "zrem", "zremrangebyrank", "zremrangebyscore", "zremrangebylex", "zclear", "zexpire", "zpersist", "plset":
+		"zadd", "zincrby", "zrem", "zremrangebyrank", "zremrangebyscore", "zremrangebylex", "zclear", "zexpire", "zpersist", "plset", "pfadd":
 		return true
 	}
 	return false
@@ -338,6 +343,28 @@ func (m *Model) Apply(ts int64, now int64, args []string) Val {
 			return Int(int64(len(v.v)))
 		}
 		return Int(0)
+	case "pfadd":
+		if len(a) < 2 {
+			return wrongArgs
+		}
+		set := m.PF[a[0]]
+		if set == nil {
+			set = map[string]bool{}
+			m.PF[a[0]] = set
+		}
+		changed := int64(0)
+		for _, e := range a[1:] {
+			if !set[e] {
+				set[e] = true
+				changed = 1
+			}
+		}
+		return Int(changed)
+	case "pfcount":
+		if len(a) != 1 {
+			return wrongArgs
+		}
+		return Int(int64(len(m.PF[a[0]])))
 	case "del":
 		if len(a) < 1 {
 			return wrongArgs
